@@ -568,7 +568,8 @@ class Angle(object):
         """
 
         if self._deg < 0:
-            self._deg = 360.0 - abs(self._deg)
+            # The modulo keeps tiny negative values from rounding up to 360.0
+            self._deg = (360.0 - abs(self._deg)) % 360.0
         return self
 
     def __eq__(self, b):
